@@ -173,7 +173,8 @@ CHECKS = {'C01': {'level': 'exploration',
                  'variant: all at once, one byte per Read, pieces of 1,2,3,5,8,13 bytes, or half of what is asked with the last data arriving '
                  'together with io.EOF - a decoder that assumes a Read fills its buffer fails the round trip | a Buffer.Clone and the buffer inside '
                  'a Commit.Clone must read back the written sequence also AFTER the original buffer was Reset and filled with other operations (what '
-                 'happens when a transaction page returns to the pool while a logger, channel consumer or snapshot recorder still holds the clone)',
+                 'happens when a transaction page returns to the pool while a logger, channel consumer or snapshot recorder still holds the clone) | '
+                 'a []byte handed to PutBytes is scribbled over by the caller right after the call (the buffer must hold a copy)',
          'assumptions': ['offsets < 2^31 and byte strings <= 65535 bytes (format limits)',
                          'merge operations always carry a value (as every caller in kelindar/column does)'],
          'tests': [{'run': '^TestC05Exhaustive$', 'timeout': {'quick': 600, 'thorough': 3000}, 'env': {'GOMAXPROCS': 1}},
@@ -274,7 +275,9 @@ CHECKS = {'C01': {'level': 'exploration',
                  'where the decompressor ends a Read) falls at a drawn byte inside the region of the small columns: every field of the format (name, '
                  'int32, chunk header, payload) gets split over two reads in some case; oracle = the generated values themselves (Restore returns '
                  'nil, Count, every cell); non-trivial = the mark fell inside that region | since round 8 generated transactions may end by '
-                 'obtaining typed column accessors that they only read (txn.Int64(name).Get(): an update buffer that stays empty)',
+                 'obtaining typed column accessors that they only read (txn.Int64(name).Get(): an update buffer that stays empty) | since round 9 '
+                 'Restore reads the snapshot (or its prefix) from one of four legal io.Readers chosen by the length: all at once, one byte per Read, '
+                 'pieces of 1,2,3,5,8,13 bytes, or half of what is asked with the last data arriving together with io.EOF',
          'assumptions': ['the restoring collection has the same columns (names, kinds, merge functions) as the original',
                          'vacuum is parked (24h interval), so the expire column is an ordinary int64 column here'],
          'tests': [{'run': '^TestC07$',
@@ -529,7 +532,8 @@ CHECKS = {'C01': {'level': 'exploration',
                  'transaction that re-writes every string (three commits of more than 1 MiB each in the log tail); the file is cut at every s2 frame '
                  'boundary +-2, at the state/log junction +-2 and at 11 other places; a prefix that restores without error must hold, per block, all '
                  'old or all new strings, the new ones in a prefix of the commit order; non-trivial = a cut inside the log tail restored without '
-                 'error',
+                 'error | since round 9 Restore reads the snapshot (or its prefix) from one of four legal io.Readers chosen by the length: all at '
+                 'once, one byte per Read, pieces of 1,2,3,5,8,13 bytes, or half of what is asked with the last data arriving together with io.EOF',
          'assumptions': ['a crash leaves a prefix of the byte stream (no torn or reordered sectors)',
                          'which files are generated is random (rapid); offsets per file are enumerated as stated (coverage.exhaustive is true only '
                          'in the thorough tier)'],
